@@ -352,7 +352,18 @@ def process (f : Fields) : Outcome :=
     else if f.ip.fragOff > 0 ∨ f.ip.flags &&& IP_MF = IP_MF then .error .unexpected
     else visitTcp f.tcp .v4 (calculateTtl f.ip.ttl) f.ip.ihl (ipv4OptLen f.ip.ihl) (ipQuirksV4 f.ip)
 
-/-- Arm of `process` taken, for coverage. -/
+def optLetter : TcpOption → Char
+  | .eol _ => 'e' | .nop => 'n' | .mss => 'm' | .ws => 'w' | .sok => 'k' | .sack => 'a' | .ts => 't' | .unknown _ => 'u'
+def quirkLetter : Quirk → Char
+  | .df => 'd' | .nonZeroID => 'i' | .zeroID => 'z' | .ecn => 'e' | .mustBeZero => 'o' | .flowID => 'f'
+  | .seqNumZero => 's' | .ackNumNonZero => 'A' | .ackNumZero => 'a' | .nonZeroURG => 'u' | .urg => 'U'
+  | .push => 'p' | .ownTimestampZero => 't' | .peerTimestampNonZero => 'T' | .trailingNonZero => 'x'
+  | .excessiveWindowScaling => 'w' | .optBad => 'b'
+def letterSet (cs : List Char) : String :=
+  String.ofList ("abcdefghijklmnopqrstuvwxyzATU".toList.filter (fun c => cs.contains c))
+
+/-- Arm of `process` taken, for coverage: version, role, window arm, option shape, and the sets of
+layout tokens (`L=`) and quirks (`Q=`) emitted. -/
 def processTag (f : Fields) : String :=
   let v := if f.ip.v6 then "v6" else "v4"
   match process f with
@@ -370,7 +381,9 @@ def processTag (f : Fields) : String :=
     let o := match sig with
       | some s => if s.olayout.isEmpty then "noopt" else if s.olayout.any (fun o => match o with | .eol _ => true | _ => false) then "eol" else "opts"
       | none => "-"
-    s!"{v}:{role}:{w}:{o}{if r.mtu.isSome then ":mtu" else ""}"
+    let ls := match sig with | some s => letterSet (s.olayout.map optLetter) | none => ""
+    let qs := match sig with | some s => letterSet (s.quirks.map quirkLetter) | none => ""
+    s!"{v}:{role}:{w}:{o}{if r.mtu.isSome then ":mtu" else ""}|L={ls}|Q={qs}|"
 
 /-! ### frame decoding (pnet accessors) -/
 
